@@ -269,10 +269,14 @@ impl PanicInfo {
 /// Runs `f` on a fresh OS thread and returns its result (panics are propagated). A fresh thread
 /// starts with pristine thread-locals, in particular std's per-thread RandomState key counter, so
 /// hash-map iteration order inside `f` does not depend on what ran before on the calling thread.
+pub fn fresh_thread_if<R: Send>(needed: bool, f: impl FnOnce() -> R + Send) -> R {
+    if needed { fresh_thread(f) } else { f() }
+}
+
 pub fn fresh_thread<R: Send>(f: impl FnOnce() -> R + Send) -> R {
     std::thread::scope(|s| {
         let h = std::thread::Builder::new()
-            .stack_size(16 << 20)
+            .stack_size(4 << 20)
             .spawn_scoped(s, move || {
                 // inherit the "quiet panics" convention of the worker
                 worker::install_panic_hook();
